@@ -30,7 +30,7 @@ ASSUME = ["workers poll with timeouts <= 5 s: all node/connection/application wo
           "timeout closures happen between wait_timeout and wait_timeout + wakeup + 2 s after stop()"]
 
 STATES = ["connecting", "awaiting-cer", "awaiting-cea", "ready", "ready", "waiting-dwa", "disconnecting"]
-REACTIONS = ["prompt", "late", "never", "close", "reset", "dpa-pending-output", "dwa-then-dpa"]
+REACTIONS = ["prompt", "late", "never", "close", "reset", "dpa-pending-output", "dwa-then-dpa", "dwr+dpa-one-segment"]
 
 
 def world_cfg(case):
@@ -117,6 +117,7 @@ def evaluate(case) -> Result:
         returned_at = None
         horizon = wait + wake + 14
         pending_reactions = {i: cs.get("reaction", "never") for i, cs in enumerate(case["conns"])}
+        must_flush = {}            # conn index -> hop-by-hop ids of watchdog requests the peer sent ahead of its DPA
         for sec in range(horizon + 1):
             now_off = w.k.now - t_stop
             # peers react to a DPR
@@ -140,11 +141,21 @@ def evaluate(case) -> Result:
                     # DPA; output is flushed one second later: the connection must then be closed
                     host_i = c.host or f"peer{i + 1}.example"
                     c.remote.sock.tx_blocked = True
+                    must_flush.setdefault(i, []).append(0xdd00 + i)
                     w.feed_msg(c, {"k": "DWR", "host": host_i, "hbh": 0xdd00 + i, "e2e": 0xdd00 + i})
                     w.feed_msg(c, {"k": "DPA", "host": host_i, "hbh": dprs[0].h["hbh"], "e2e": dprs[0].h["e2e"]})
                     w.advance(1)
                     c.remote.sock.tx_blocked = False
                     w.run()
+                    t_dpa[i] = w.k.now
+                    del pending_reactions[i]
+                elif react == "dwr+dpa-one-segment":
+                    # the peer's own watchdog request and its DPA arrive in one read: the DWA is pending output
+                    # (queued, not yet encoded) when the DPA is handled, and must go out before the close
+                    host_i = c.host or f"peer{i + 1}.example"
+                    must_flush.setdefault(i, []).append(0xdf00 + i)
+                    w.feed(c, W.build_msg({"k": "DWR", "host": host_i, "hbh": 0xdf00 + i, "e2e": 0xdf00 + i}) +
+                           W.build_msg({"k": "DPA", "host": host_i, "hbh": dprs[0].h["hbh"], "e2e": dprs[0].h["e2e"]}))
                     t_dpa[i] = w.k.now
                     del pending_reactions[i]
                 elif react == "dwa-then-dpa":
@@ -225,6 +236,12 @@ def evaluate(case) -> Result:
             dwrs = [f for f in new if f.code == W.CMD_DW and f.is_request]
             if dwrs:
                 res.v("C18/dwr-while-stopping", f"conn {i}: DWR at +{dwrs[0].t - t_stop:g}s")
+            if not force and c.node_closed and (c.remote.closed_at or 0) - t_stop < wait:
+                # (a connection closed by the wait timeout is closed whatever is pending)
+                for h_ in must_flush.get(i, []):
+                    if not [f for f in new if f.code == W.CMD_DW and not f.is_request and f.h["hbh"] == h_]:
+                        res.v("C18/pending-output-not-flushed", f"conn {i}: the DWA for the peer's DWR {h_:#x}, pending when the DPA arrived, "
+                              f"was never written; the connection was closed at +{(c.remote.closed_at or 0) - t_stop:g}s")
             # closure times
             if not c.node_closed:
                 res.v("C18/connection-not-closed", f"conn {i} ({st_name}) still open at the end")
